@@ -462,6 +462,14 @@ def _put_one_constant(
 
     self._put_src(repr(value), *self.loc, True)
 
+    ln, col, end_ln, end_col = self.loc
+    lines = self.root._lines
+
+    if isinstance(value, int) and value is not True and value is not False and lines[end_ln].startswith('.', end_col):  # `'a'.b` -> `2 .b`, not the float `2.b`
+        self._put_src([' '], end_ln, end_col, end_ln, end_col, False)
+
+    self._fix_joined_alnums(ln, col, end_ln, end_col, lines=lines)  # `not'a'` -> `not True`, `1 if'a'else 2` -> `1 if None else 2`
+
     ast = self.a
     ast.value = value
 
